@@ -77,6 +77,8 @@ fn main() {
         "C01" => drive(&props::bulkhead::C01, &opts),
         "C07" => drive(&props::bulkhead::C07, &opts),
         "C04" => drive(&props::breaker_model::C04, &opts),
+        "C03" => drive(&props::breaker_conc::C03, &opts),
+        "C09" => drive(&props::breaker_conc::C09, &opts),
         "C02" => drive(&props::ratelimiter::C02, &opts),
         "C15" => drive(&props::ratelimiter::C15, &opts),
         _ => {
